@@ -225,4 +225,41 @@ theorem containerCheck_is_source_check (H : Bytes → Bytes) (fs : FS) (c : Cont
       show some (List.foldlM (ccStep H fs c) true (c.infos.filter (fun i => i.kind ≠ .directory))) = _
       rw [this]; simp
 
+/-! ### where the pack infos of a manifest sit -/
+
+/-- run the translated `PackOffsetsIter::next` until it answers `None` -/
+def drainOffsets (B : Nat) : Nat → Nat → Nat → List Nat
+  | 0, _, _ => []
+  | fuel + 1, off, left =>
+    match Generated.packOffsetsNext B off left with
+    | (some o, off', left') => o :: drainOffsets B fuel off' left'
+    | (none, _, _) => []
+
+theorem drainOffsets_eq (B left : Nat) : ∀ off fuel, left < fuel →
+    drainOffsets B fuel off left = (List.range left).map (fun k => off + k * B) := by
+  induction left with
+  | zero =>
+    intro off fuel h
+    obtain ⟨f, rfl⟩ : ∃ f, fuel = f + 1 := ⟨fuel - 1, by omega⟩
+    simp [drainOffsets, Generated.packOffsetsNext]
+  | succ n ih =>
+    intro off fuel h
+    obtain ⟨f, rfl⟩ : ∃ f, fuel = f + 1 := ⟨fuel - 1, by omega⟩
+    simp only [drainOffsets, Generated.packOffsetsNext, Nat.add_sub_cancel, ne_eq, Nat.add_eq_zero_iff, Nat.succ_ne_zero,
+      and_false, not_false_eq_true, if_true]
+    rw [ih _ f (by omega), List.range_succ_eq_map]
+    simp [List.map_map, Function.comp_def, Nat.add_mul, Nat.add_assoc, Nat.add_comm]
+    intro a _; omega
+
+/-- **The offsets at which the reader looks for the pack infos of a manifest are the source's**:
+    `PackOffsetsIter::new` and `next` (`reader/manifest_pack.rs`) translated on every run enumerate exactly
+    `packInfosOffset checkInfoPos count + k * 256` for `k < count` — the offsets `manifestOpen`, `setLocation`
+    and the masked check stream of the model use — and then stop. -/
+theorem gen_packOffsets (cip count : Nat) :
+    drainOffsets packInfoBlockSize (count + 1) (Generated.packOffsetsNew packInfoBlockSize cip count).1
+        (Generated.packOffsetsNew packInfoBlockSize cip count).2 =
+      (List.range count).map (fun k => packInfosOffset cip count + k * packInfoBlockSize) := by
+  rw [show (Generated.packOffsetsNew packInfoBlockSize cip count).2 = count from rfl, drainOffsets_eq _ count _ _ (by omega)]
+  rfl
+
 end Jubako
